@@ -826,7 +826,9 @@ class C20(PropBase):
                     continue                   # judged on the primary output below / above
                 midreport = ""
                 want = sec if nm == "the cyborg file" else prim
-                if write_trouble(c) and lib in ("O", "P") and isinstance(s, tuple) and (ldi_unpredictable or ({want, str(want) + "<"} & s[2])):
+                wanted = acceptable(c, want)
+                if write_trouble(c) and lib in ("O", "P") and isinstance(s, tuple) and \
+                        (ldi_unpredictable or ((wanted | {w + "<" for w in wanted}) & s[2])):
                     # F-C20c: the printers stream; an io error after the first bytes cannot take them back
                     midreport = " (io error after report bytes were streamed)"
                 return "status 1 but %d bytes of report on %s%s" % (sink_len(s), nm, midreport)
@@ -924,6 +926,8 @@ class C20(PropBase):
                 want_err = None
         else:
             want_err = {4: "C", 5: "U"}.get(dk, want if want else ("E" if exact else None))
+            if dk in (4, 5) and c["verbose"] not in ("e", "off", "error"):
+                want_err = None          # the logger's warn / info / debug / trace lines share standard error with the message
         if want_err is not None and errc != "-":
             ok = ok_logger if (want_err == want and want is not None) else {want_err}
             if errc not in ok:
